@@ -723,7 +723,7 @@ func c07(c *Ctx) {
 				rule string
 				pick func(key string) bool
 			}{
-				{c10, "C10.R4", func(k string) bool { return strings.HasSuffix(k, ":rekeyed") }},
+				{c10, "C10.R4", func(k string) bool { return strings.HasSuffix(k, ":rekeyed") || k == "forward:rebuilt-map" }},
 				{c11, "C11.R2", func(k string) bool { return strings.HasSuffix(k, ":hit") }},
 				{c11, "C11.R3", func(k string) bool { return strings.HasSuffix(k, ":rekeyed") }},
 			} {
@@ -745,6 +745,104 @@ func c07(c *Ctx) {
 			}
 		})
 	}
+
+	c.Rule("C07.R10", "consolidator slots: a map put (back) into the slot channel is either fresh or one just taken from the slot channel by a function that hands nothing to the sink - a map already handed to the sink is never filled again (its later datapoints would be merged twice or into a batch in flight)", 4, func(r *Rule) {
+		isField := func(v ssa.Value, name string) bool {
+			T, f, _, ok := fieldRefThroughLoad(v)
+			return ok && T == "MetricConsolidator" && f == name
+		}
+		n := 0
+		for _, fn := range pkgFuncs(w, "") {
+			if fn.Signature.Recv() == nil || !strings.HasSuffix(fn.Signature.Recv().Type().String(), "gostatsd.MetricConsolidator") {
+				continue
+			}
+			for _, g := range WithAnon(fn) {
+				// does this function hand maps to the sink?
+				toSink := false
+				eachInstr(g, func(in ssa.Instruction) {
+					if sd, ok := in.(*ssa.Send); ok && isField(sd.Chan, "sink") {
+						toSink = true
+					}
+				})
+				fromSlot := func(v ssa.Value) bool {
+					switch x := v.(type) {
+					case *ssa.UnOp:
+						return x.Op == token.ARROW && isField(x.X, "maps")
+					case *ssa.Extract:
+						if sel, ok := x.Tuple.(*ssa.Select); ok && x.Index >= 2 {
+							k := 0
+							for _, st := range sel.States {
+								if st.Dir == types.RecvOnly {
+									if 2+k == x.Index {
+										return isField(st.Chan, "maps")
+									}
+									k++
+								}
+							}
+						}
+					}
+					return false
+				}
+				eachInstr(g, func(in ssa.Instruction) {
+					sd, ok := in.(*ssa.Send)
+					if !ok || !isField(sd.Chan, "maps") {
+						return
+					}
+					n++
+					for _, vc := range valueCases(sd.X, nil) {
+						v := ptrOrigin(vc.V)
+						okv, why := false, pathOf(v)
+						if cl, isC := v.(*ssa.Call); isC && isCall(cl, "gostatsd.NewMetricMap") {
+							okv, why = true, "a fresh map"
+						} else if fromSlot(v) && !toSink {
+							okv, why = true, "the map just taken from a slot"
+						} else if ld, isLd := v.(*ssa.UnOp); isLd && ld.Op == token.MUL && !toSink {
+							// an element of the local slice of maps taken from the slots (put back when a drain is abandoned)
+							if ia, isIA := ld.X.(*ssa.IndexAddr); isIA {
+								local := true
+								var visit func(x ssa.Value, d int)
+								seen := map[ssa.Value]bool{}
+								visit = func(x ssa.Value, d int) {
+									if d > 8 || seen[x] {
+										return
+									}
+									seen[x] = true
+									switch y := x.(type) {
+									case *ssa.MakeSlice:
+									case *ssa.Phi:
+										for _, e := range y.Edges {
+											visit(e, d+1)
+										}
+									case *ssa.Call:
+										if isCall(y, "builtin append") {
+											visit(y.Call.Args[0], d+1)
+											for _, el := range varargElems(y.Call.Args[1]) {
+												if !fromSlot(el) {
+													local = false
+												}
+											}
+										} else {
+											local = false
+										}
+									case *ssa.Slice:
+										visit(y.X, d+1)
+									default:
+										local = false
+									}
+								}
+								visit(ia.X, 0)
+								if local {
+									okv, why = true, "an element of the local slice of maps taken from the slots"
+								}
+							}
+						}
+						r.Check(FuncName(g)+":slot-gets:"+exprString(vc.V, 0), okv, sd.Pos(), "put into the slot channel: "+why+" (must be fresh, or taken from a slot by a function that sends nothing to the sink)")
+					}
+				})
+			}
+		}
+		r.Check("slot-puts-found", n >= 3, token.NoPos, fmt.Sprintf("%d sends on the consolidator's slot channel", n))
+	})
 
 	c.Rule("C07.R6", "four-type exhaustiveness: a function traversing >= 2 of Counters/Timers/Gauges/Sets of one MetricMap traverses all four", 15, func(r *Rule) {
 		fourTypeRule(c, r, nil)
